@@ -396,21 +396,33 @@ class CachedFcn(UserFcn):
         f(4.56)   # computes the function again at a new point
     """
 
+    @staticmethod
+    def _same(x, y):
+        """True if two arguments are the same object or have the same type and equal content.
+
+        Records (dicts), sequences and arrays are compared structurally, so that a one-row batch is not mistaken
+        for the row it contains; anything that cannot be compared counts as a new argument.
+        """
+        if x is y:
+            return True
+        if type(x) is not type(y):
+            return False
+        if isinstance(x, dict):
+            return x.keys() == y.keys() and all(CachedFcn._same(x[k], y[k]) for k in x)
+        if isinstance(x, (list, tuple)):
+            return len(x) == len(y) and all(CachedFcn._same(a, b) for a, b in zip(x, y))
+        try:
+            return bool(np.array_equal(x, y))
+        except Exception:
+            return False
+
     def __call__(self, *args, **kwds):
         if (
             hasattr(self, "lastArgs")
             and len(args) == len(self.lastArgs)
-            and (
-                all(x is y for x, y in zip(args, self.lastArgs))
-                or (self.np is not None and all(self.np.array_equal(x, y) for x, y in zip(args, self.lastArgs)))
-                or (self.np is None and all(x == y for x, y in zip(args, self.lastArgs)))
-            )
+            and all(self._same(x, y) for x, y in zip(args, self.lastArgs))
             and set(kwds.keys()) == set(self.lastKwds.keys())
-            and (
-                all(kwds[k] is self.lastKwds[k] for k in kwds)
-                or (self.np is not None and all(self.np.array_equal(kwds[k], self.lastKwds[k]) for k in kwds))
-                or (self.np is None and all(kwds[k] == self.lastKwds[k] for k in kwds))
-            )
+            and all(self._same(kwds[k], self.lastKwds[k]) for k in kwds)
         ):
             return self.lastReturn
         self.lastArgs = args
